@@ -81,8 +81,8 @@ theorem C13_relabel (f : κ → κ') (hf : Injective f) (protein : List String) 
     exact applyMods_rename f hf protein ff nodes st.graphs _ _
 
 /-- **C13_relabel_full.**  The same for the whole of `MapToMolecule.run_molecule`, INCLUDING
-`match_nodes_to_blocks` (depth-first search over the residue graph, connected components of the
-`from_itp` nodes, slicing of fragments into copies): renaming the nodes of the graph (nodes, adjacency
+`match_nodes_to_blocks` (the edge list of the residue graph, connected components of the `from_itp`
+nodes, slicing of fragments into copies): renaming the nodes of the graph (nodes, adjacency
 lists) by any injective `f` gives the same molecule and exclusion distance, the same acceptance or
 rejection, and the same per-residue atom lists under the new names. -/
 theorem C13_relabel_full (f : κ → κ') (hf : Injective f) (ff : FF) (g : ResGraph κ) :
